@@ -1,5 +1,128 @@
-(* Proofs about the bit-field model (see Props/C08.v for the property theorems). *)
+(* The lemmas behind Props/C08.v, stated exactly as there. *)
 From Coq Require Import ZArith List Bool Lia.
 Require Import Rig.Model.Base Rig.Model.BitField Rig.Spec.BitField.
+Require Export Rig.Proofs.BitFieldBits Rig.Proofs.BitFieldTree Rig.Proofs.BitFieldAssign
+               Rig.Proofs.BitFieldAdd Rig.Proofs.BitFieldKeys Rig.Proofs.BitFieldCheck
+               Rig.Proofs.BitFieldReach Rig.Proofs.BitFieldComplete Rig.Proofs.BitFieldRefute.
 Import ListNotations.
 Open Scope Z_scope.
+
+Lemma inv_sound_parts st :
+  Inv st -> fids_unique (s_tree st) /\ no_overlap (s_tree st) (s_store st) /\ wide_enough (s_tree st) (s_store st).
+Proof.
+  intros [W [HD [HR HM]]]. split; [apply (wf_nodup _ _ W)|split].
+  - now apply Disj_no_overlap.
+  - now apply LenMax_wide.
+Qed.
+
+(* at any moment of any history, positioned fields that can be present together are disjoint and every
+   recorded maximum fits the field's length *)
+Lemma reachable_no_overlap st :
+  reachable st -> no_overlap (s_tree st) (s_store st) /\ wide_enough (s_tree st) (s_store st).
+Proof. intros R. apply reachable_inv in R. destruct (inv_sound_parts _ R) as [_ H]. exact H. Qed.
+
+Lemma assign_sound_layout st st' :
+  reachable st -> assign_fields st = (st', None) ->
+  sound_layout (s_len st') (s_tree st') (s_store st').
+Proof.
+  intros R H. apply reachable_inv in R. destruct R as [W HI].
+  destruct (assign_fields_inv _ _ _ _ W HI H) as [A [B [_ [D [[HD [HR HM]] [_ P]]]]]].
+  rewrite A, B. constructor.
+  - apply (wf_nodup _ _ W).
+  - apply placed_all; auto.
+  - now apply Disj_no_overlap.
+Qed.
+
+Lemma assign_no_overlap st st' :
+  reachable st -> assign_fields st = (st', None) ->
+  no_overlap (s_tree st') (s_store st') /\ all_placed (s_len st') (s_tree st') (s_store st').
+Proof.
+  intros R H. destruct (assign_sound_layout _ _ R H) as [_ P D]. split; assumption.
+Qed.
+
+(* every value ever given to a field fits the field's length, whenever that length gets (or already is)
+   fixed *)
+Lemma assign_wide_enough st1 fv kw st2 st3 i v :
+  reachable st1 -> call st1 fv kw = (st2, None) -> In (i, v) (kw ++ fv) -> reaches st2 st3 ->
+  exists fid, get_field (s_tree st2) i (kw ++ fv) = Some fid /\ 0 <= v /\
+              forall l, f_len (sget (s_store st3) fid) = Some l -> v < 2 ^ l.
+Proof.
+  intros R Hc Hin Hr. pose proof (reachable_inv _ R) as HI.
+  destruct (call_records _ _ _ _ HI Hc i v Hin) as [fid [p [Hg [Hp Hv]]]].
+  exists fid. split; [exact Hg|split; [lia|]]. intros l Hl.
+  pose proof (call_inv _ _ _ _ _ HI Hc) as HI2.
+  destruct (reaches_persist_inv _ _ HI2 Hr) as [_ HP]. destruct (HP _ Hp) as [Hp3 [Hmax _]].
+  destruct (reaches_inv _ _ HI2 Hr) as [_ [_ [_ HM]]].
+  destruct (HM _ Hp3) as [_ M2]. destruct (M2 _ Hl) as [_ M3].
+  unfold e_fid in *. simpl in *. lia.
+Qed.
+
+(* the laid-out bit field: keys of reachable instances *)
+Lemma reachable_value_readback st st' fv v :
+  reachable st -> assign_fields st = (st', None) -> In fv (s_insts st') ->
+  get_value st' fv None None = Ok v ->
+  forall i f, In (i, f) (enabled_fields (s_tree st') fv) ->
+    exists p l x, frange (s_store st') f = Some (p, l) /\ zassoc i fv = Some x /\ read_field v p l = x.
+Proof.
+  intros R H Hfv Hv. pose proof (assign_sound_layout _ _ R H) as SL.
+  assert (R' : reachable st').
+  { eapply reach_step with (o := OpAssign 0) (r := OutNone); eauto; [|discriminate].
+    simpl. rewrite H. reflexivity. }
+  eapply value_readback; eauto. apply reachable_values_fit; auto. apply (sl_placed _ _ _ SL).
+Qed.
+
+Lemma reachable_keys_distinct st st' fv1 fv2 v1 m1 v2 m2 :
+  reachable st -> assign_fields st = (st', None) -> In fv1 (s_insts st') -> In fv2 (s_insts st') ->
+  get_value st' fv1 None None = Ok v1 -> get_mask st' fv1 None None = Ok m1 ->
+  get_value st' fv2 None None = Ok v2 -> get_mask st' fv2 None None = Ok m2 ->
+  (exists i f, In (i, f) (enabled_fields (s_tree st') fv1) /\ zassoc i fv1 <> zassoc i fv2) ->
+  ~ keys_intersect v1 m1 v2 m2.
+Proof.
+  intros R H H1 H2. pose proof (assign_sound_layout _ _ R H) as SL.
+  assert (R' : reachable st').
+  { eapply reach_step with (o := OpAssign 0) (r := OutNone); eauto; [|discriminate].
+    simpl. rewrite H. reflexivity. }
+  apply (keys_distinct (s_len st')); auto.
+  - now apply reachable_keys_local.
+  - apply reachable_values_fit; auto. apply (sl_placed _ _ _ SL).
+  - apply reachable_values_fit; auto. apply (sl_placed _ _ _ SL).
+Qed.
+
+Lemma assign_complete_flat_reachable st fs :
+  reachable st -> s_tree st = Node fs [] ->
+  unpositioned (s_tree st) (s_store st) ->
+  widths_fit (s_len st) (s_tree st) (s_store st) ->
+  exists st', assign_fields st = (st', None).
+Proof. intros R. apply assign_complete_flat. now apply reachable_inv. Qed.
+
+(* non-vacuity: a reachable two-level bit field, laid out, two complete instances with different keys *)
+Definition ex_ops : list op :=
+  [OpAdd 0 0 (Some 2) None [7]; OpCall 0 [(0, 1)]; OpAdd 1 1 None None [8]; OpCall 1 [(1, 9)];
+   OpCall 0 [(0, 2)]; OpAdd 3 1 (Some 3) (Some 5) []; OpCall 3 [(1, 5)]].
+
+Definition ex_state : state := exec (init 10) ex_ops.
+
+Lemma ex_instance :
+  exists st' v1 m1 v2 m2,
+    reachable ex_state /\ assign_fields ex_state = (st', None)
+    /\ get_value st' (nth 2 (s_insts st') []) None None = Ok v1
+    /\ get_mask st' (nth 2 (s_insts st') []) None None = Ok m1
+    /\ get_value st' (nth 4 (s_insts st') []) None None = Ok v2
+    /\ get_mask st' (nth 4 (s_insts st') []) None None = Ok m2
+    /\ (v1, m1, v2, m2) = (265, 783, 672, 992).
+Proof.
+  exists (fst (assign_fields ex_state)). do 4 eexists.
+  split; [apply exec_reachable, reach_init|].
+  repeat split; vm_compute; reflexivity.
+Qed.
+
+Lemma ex_flat_instance :
+  exists st fs, reachable st /\ s_tree st = Node fs [] /\ fs <> []
+    /\ unpositioned (s_tree st) (s_store st) /\ widths_fit (s_len st) (s_tree st) (s_store st).
+Proof.
+  exists (exec (init 8) [OpAdd 0 0 (Some 3) None []; OpAdd 0 1 None None []; OpCall 0 [(1, 17)]]).
+  eexists. split; [apply exec_reachable, reach_init|]. split; [vm_compute; reflexivity|].
+  split; [discriminate|]. split.
+  - intros i f Hin. vm_compute in Hin. destruct Hin as [Hin|[Hin|[]]]; inversion Hin; subst; reflexivity.
+  - intros fv. vm_compute. discriminate.
+Qed.
